@@ -436,7 +436,102 @@ class PriceLoop(FunctionContract):
         return (bool(v), {"scripted_history_violations": [{"obligation": x["obligation"], "witness": x.get("witness")} for x in v][:3]})
 
 
-UNITS = [ComputeLevel(), StatisticExtend(), StatisticAdd(), PriceIdentity(), PriceLoop()]
+class ResultsFromTheSamples(Lemma):
+    """MLMCStatistics.set_mlmc_results + MLMCResults / NonCenteredMoments (real bodies): "the reported N_l, level means, level
+    variances ... and per-level cost are computed from those same samples".  Two levels, symbolic payoff rows.  First pass:
+    n rows per level;  second pass, as the engine does it: the SAME N_l and cost arrays are updated in place, the level
+    arrays have grown by k rows, set_mlmc_results is called again.  After each call, for every level:
+      ml = |mean(fine - coarse)|, vl = max(0, mean((fine - coarse)^2) - mean(fine - coarse)^2), level mean = mean(fine),
+      level variance = mean(fine^2) - mean(fine)^2, cl = cost / N, over ALL rows currently stored (nothing stale)."""
+    prop = "C05"
+    cases = ((1, 1), (2, 1), (1, 2))
+
+    def __init__(self):
+        self.name = "property:results-computed-from-the-stored-samples"
+
+    def prove(self, vc, case):
+        n, k = case
+        nm = f"{self.name}[rows {n} then {n + k}]"
+        L = 2
+        rows = [[(vc.real(f"fine{l}_{i}"), vc.real(f"coarse{l}_{i}")) for i in range(n + k)] for l in range(L)]
+
+        def arr(l, m):
+            A = np.empty((m, 1, 2), dtype=object)
+            for i in range(m):
+                A[i, 0, 0], A[i, 0, 1] = rows[l][i]
+            return A
+        sts = [vc.obj(ST + "Statistic", stats=arr(l, n)) for l in range(L)]
+        mcs = [vc.obj(ST + "MCStatistics", _payoff_statistics=sts[l], _control_variates_statistics=vc.obj(ST + "NoStatistic"), _payoff_statistics_with_cv=sts[l]) for l in range(L)]
+        o = vc.obj(ST + "MLMCStatistics", mc_statistics=mcs, mlmc_results=None)
+        Nl = np.array([n] * L, dtype=object)
+        cost = np.array(vc.reals("cost", L), dtype=object)
+        cost2 = vc.reals("cost_after", L)
+
+        def check(tag, m):
+            r = o.fields["mlmc_results"]
+            get = lambda name: np.ravel(np.asarray(vc.interp.getattr(r, name), dtype=object))
+            ml, vl, cl, mean_l, var_l, kurt = get("ml"), get("vl"), get("cl"), get("mean_level_l"), get("var_level_l"), get("kurtosis")
+            for l in range(L):
+                d = [rows[l][i][0] - rows[l][i][1] for i in range(m)]
+                f = [rows[l][i][0] for i in range(m)]
+                md = sum(d, 0) / m
+                m2 = sum((x * x for x in d), 0) / m
+                mf = sum(f, 0) / m
+                mf2 = sum((x * x for x in f), 0) / m
+                sabs = lambda x: If(x >= 0, x, -x)
+                vc.check(nm + f"::{tag}:ml-is-the-absolute-mean-of-the-corrections", compare(ml[l], sabs(md), "=="))
+                vc.check(nm + f"::{tag}:vl-is-the-variance-of-the-corrections", compare(vl[l], smax(0, m2 - md * md), "=="))
+                vc.check(nm + f"::{tag}:level-mean-is-the-mean-of-the-fine-payoffs", compare(mean_l[l], mf, "=="))
+                vc.check(nm + f"::{tag}:level-variance-is-the-variance-of-the-fine-payoffs", compare(var_l[l], mf2 - mf * mf, "=="))
+                vc.check(nm + f"::{tag}:cl-is-the-cost-per-sample", compare(cl[l], (cost[l] if tag == "first-pass" else cost2[l]) / m, "=="))
+                c4 = sum(((x - md) * (x - md) * (x - md) * (x - md) for x in d), 0) / m
+                den = smax(1, m2 - md * md)
+                vc.check(nm + f"::{tag}:kurtosis-is-the-fourth-central-moment-of-the-corrections-over-max(1,variance)^2", compare(kurt[l] * den * den, c4, "=="))
+                vc.check(nm + f"::{tag}:reported-N", compare(np.ravel(np.asarray(r.fields["Nl"], dtype=object))[l], m, "=="))
+        vc.method(o, "set_mlmc_results", Nl, cost)
+        check("first-pass", n)
+        # the engine's next pass: more rows stored, the same arrays updated in place
+        for l in range(L):
+            sts[l].fields["stats"] = arr(l, n + k)
+            Nl[l] = Nl[l] + k
+            cost[l] = cost2[l]
+        vc.method(o, "set_mlmc_results", Nl, cost)
+        check("second-pass", n + k)
+
+    def replay(self, model, clause, case):
+        from rpylib.montecarlo.statistic.statistic import MLMCStatistics, MCStatistics, Statistic, NoStatistic
+        n, k = case
+        rng = np.random.default_rng(3)
+        data = [rng.normal(size=(n + k, 1, 2)) for _ in range(2)]
+
+        def mk(l):
+            st = Statistic.__new__(Statistic)
+            st.stats = data[l][:n].copy()
+            mc = MCStatistics.__new__(MCStatistics)
+            mc._payoff_statistics = st
+            mc._control_variates_statistics = NoStatistic()
+            mc._payoff_statistics_with_cv = st
+            return mc
+        mcs = [mk(0), mk(1)]
+        o = MLMCStatistics(mcs, None)
+        Nl = np.array([n, n])
+        cost = np.array([1.0, 2.0])
+        o.set_mlmc_results(Nl, cost)
+        for l in range(2):
+            mcs[l]._payoff_statistics.stats = data[l].copy()
+            Nl[l] += k
+            cost[l] += 1.0
+        o.set_mlmc_results(Nl, cost)
+        r = o.mlmc_results
+        d = [data[l][:, 0, 0] - data[l][:, 0, 1] for l in range(2)]
+        want = {"ml": [abs(x.mean()) for x in d], "vl": [max(0.0, (x * x).mean() - x.mean() ** 2) for x in d], "cl": list(cost / (n + k)),
+                "mean_level_l": [data[l][:, 0, 0].mean() for l in range(2)]}
+        got = {key: [float(v) for v in np.ravel(getattr(r, key))] for key in want}
+        bad = any(not np.allclose(got[key], want[key]) for key in want)
+        return (bool(bad), {"rows": [n, n + k], "second_pass_results": got, "from_all_stored_rows": {a: [float(v) for v in b] for a, b in want.items()}})
+
+
+UNITS = [ComputeLevel(), StatisticExtend(), StatisticAdd(), PriceIdentity(), PriceLoop(), ResultsFromTheSamples()]
 ASSUMPTIONS = ["A1: floats are mathematical reals", "each call of the simulator returns a fresh sample; its payoffs are functions of the sample (C17)",
                "the (n,1,2) payoff array of a level is represented by its fine and coarse columns"]
 TRUSTED_BASE = ["z3 5.1 (LRA + arrays)", "pyvc interpreter + numpy models"]
